@@ -236,6 +236,8 @@ bool StepScript(InterpreterEnv& env)
             env.curr_op_seq++;
             env.nOpCount = 0; // reset to avoid hitting limit prematurely!
             env.opcode_pos = 0;
+            env.altstack.clear(); // every script starts with an empty alt stack
+            if ((env.sigversion == SigVersion::BASE || env.sigversion == SigVersion::WITNESS_V0) && script.size() > MAX_SCRIPT_SIZE) return set_error(serror, SCRIPT_ERR_SCRIPT_SIZE);
             return true;
         }
         return set_error(serror, SCRIPT_ERR_BAD_OPCODE);
@@ -264,6 +266,8 @@ bool StepScript(InterpreterEnv& env)
         }
         env.nOpCount = 0; // reset to avoid hitting limit prematurely!
         env.opcode_pos = 0;
+        env.altstack.clear(); // every script starts with an empty alt stack
+        if ((env.sigversion == SigVersion::BASE || env.sigversion == SigVersion::WITNESS_V0) && script.size() > MAX_SCRIPT_SIZE) return set_error(serror, SCRIPT_ERR_SCRIPT_SIZE);
         return true;
     }
 
